@@ -37,6 +37,38 @@ func ColumnToFloat32(cols io.ColumnInterface, name string) (outCol []float32, er
 		for i := range cc {
 			outCol[i] = float32(cc[i])
 		}
+	case []int16:
+		outCol = make([]float32, len(cc))
+		for i := range cc {
+			outCol[i] = float32(cc[i])
+		}
+	case []int8:
+		outCol = make([]float32, len(cc))
+		for i := range cc {
+			outCol[i] = float32(cc[i])
+		}
+	case []uint8:
+		outCol = make([]float32, len(cc))
+		for i := range cc {
+			outCol[i] = float32(cc[i])
+		}
+	case []uint16:
+		outCol = make([]float32, len(cc))
+		for i := range cc {
+			outCol[i] = float32(cc[i])
+		}
+	case []uint32:
+		outCol = make([]float32, len(cc))
+		for i := range cc {
+			outCol[i] = float32(cc[i])
+		}
+	case []uint64:
+		outCol = make([]float32, len(cc))
+		for i := range cc {
+			outCol[i] = float32(cc[i])
+		}
+	default:
+		return nil, fmt.Errorf("column %s has unsupported type %T", name, ccol)
 	}
 	return outCol, nil
 }
@@ -72,6 +104,38 @@ func ColumnToFloat64(cols io.ColumnInterface, name string) (outCol []float64, er
 		for i := range cc {
 			outCol[i] = float64(cc[i])
 		}
+	case []int16:
+		outCol = make([]float64, len(cc))
+		for i := range cc {
+			outCol[i] = float64(cc[i])
+		}
+	case []int8:
+		outCol = make([]float64, len(cc))
+		for i := range cc {
+			outCol[i] = float64(cc[i])
+		}
+	case []uint8:
+		outCol = make([]float64, len(cc))
+		for i := range cc {
+			outCol[i] = float64(cc[i])
+		}
+	case []uint16:
+		outCol = make([]float64, len(cc))
+		for i := range cc {
+			outCol[i] = float64(cc[i])
+		}
+	case []uint32:
+		outCol = make([]float64, len(cc))
+		for i := range cc {
+			outCol[i] = float64(cc[i])
+		}
+	case []uint64:
+		outCol = make([]float64, len(cc))
+		for i := range cc {
+			outCol[i] = float64(cc[i])
+		}
+	default:
+		return nil, fmt.Errorf("column %s has unsupported type %T", name, ccol)
 	}
 	return outCol, nil
 }
